@@ -372,7 +372,9 @@ theorem client_block1_genuine_partial (x : LgXmit) (room : Nat) (ok : Bool) (blk
     (∀ st' n m s p, xmitB1Step x room ok blk = (st', B1Out.sendNext n m s p) →
       p = slice x.data s n ∧ n < nBlocks x.data.length s ∧ m = more x.data.length s n ∧
       ∃ x', st' = some x' ∧ x'.blkSize = s ∧ x'.lastBlock = some (n - 1) ∧ 1 ≤ n ∧ x'.offset = n * 2 ^ (s + 4)) := by
-  refine ⟨fun x' h => xmitB1Step_inv x room ok blk x' hinv hlen hblk h, ?_⟩
+  refine ⟨fun x' h => by
+    obtain ⟨a, b, c, _⟩ := xmitB1Step_inv x room ok blk x' hinv hlen hblk h
+    exact ⟨a, b, c⟩, ?_⟩
   intro st' n m s p h
   obtain ⟨a, b, _, ⟨num0, d⟩, e⟩ := xmitB1Step_spec x room ok blk st' n m s p h
   obtain ⟨e1, x', e2, _, e4, e5, e6, e7⟩ := e hinv (hblk num0 s d)
